@@ -490,6 +490,9 @@ func buildTable(thorough bool) (*table, error) {
 	b.lzwStateGroups()
 	// added after the second round of independent seeds
 	b.jbig2ProgramGroups()
+	// added after the third round of independent seeds
+	b.jbig2ParamProgramGroups()
+	b.dctProgramGroups()
 	return b.t, nil
 }
 
